@@ -23,7 +23,7 @@ use compio_net::{ReadHalf, TcpListener, TcpStream, UnixListener, UnixStream, Wri
 use compio_runtime::{CancelToken, ResumeUnwind, StreamExt as _};
 use futures_util::{Stream, StreamExt as _, future::LocalBoxFuture};
 
-use super::*;
+use super::{bufs::*, *};
 
 // ---------------------------------------------------------------- kinds
 
